@@ -70,6 +70,8 @@ type Step struct {
 	Handle int    `json:"handle,omitempty"`
 	Op     *KOp   `json:"op,omitempty"`
 	Clock  uint64 `json:"clock"`
+	Q      string `json:"q,omitempty"`     // query: template name
+	Arg    string `json:"arg,omitempty"`   // query: argument
 	Start  string `json:"start,omitempty"` // dump: zero|current|stale|bogus  (CAS of Key in Coll)
 	Plus   uint64 `json:"plus,omitempty"`  // dump: added to the resolved start CAS
 }
@@ -547,6 +549,28 @@ func xcolBytes(x *[]XKV) []byte {
 }
 
 var errPanic = errors.New("panic")
+
+// the family of SQL statements of C19 (their semantics in the model: Store.eval_query)
+func queryTemplate(name, arg string) (string, Term, map[string]any) {
+	switch name {
+	case "QIds":
+		return "SELECT json_quote(id) AS id FROM $_keyspace ORDER BY id", C("QIds"), nil
+	case "QBodies":
+		return "SELECT json_quote(id) AS id, json_quote(hex(body)) AS hb FROM $_keyspace ORDER BY id", C("QBodies"), nil
+	case "QCount":
+		return "SELECT count(*) AS n FROM $_keyspace", C("QCount"), nil
+	case "QIdEq":
+		return "SELECT json_quote(id) AS id FROM $_keyspace WHERE id = $k", C("QIdEq", S(arg)), map[string]any{"k": arg}
+	case "QBodyA1":
+		return "SELECT json_quote(id) AS id FROM $_keyspace WHERE CASE WHEN json_valid(body) THEN body->>'$.a' END = 1 ORDER BY id", C("QBodyA1"), nil
+	case "QXattrRev":
+		return "SELECT json_quote(id) AS id FROM $_keyspace WHERE xattrs->>'$._sync.rev' = $v ORDER BY id", C("QXattrRev", S(arg)), map[string]any{"v": arg}
+	case "QSync":
+		return "SELECT json_quote(id) AS id, xattrs->'$._sync' AS s FROM $_keyspace ORDER BY id", C("QSync"), nil
+	default:
+		return "SELECT json_quote(id) AS id FROM $_keyspace ORDER BY id DESC LIMIT 2", C("QLast2"), nil
+	}
+}
 
 // execute one KV op; returns the Coq op term and the Coq response term
 func (k *kvRun) doKv(st Step) (opT Term, respT Term, err error) {
@@ -1054,6 +1078,42 @@ func execKvInner(in kvInput, scratch string, prog *kvProgress) (Case, error) {
 				dumpEvs = append(dumpEvs, feventTerm(ev))
 			}
 			respT = C("ROk")
+		case "query":
+			exist, _, err := k.existingColls()
+			if err != nil {
+				return c, err
+			}
+			if !exist[st.Coll] {
+				c.Discard = fmt.Sprintf("step %d queries collection %s which does not exist (invalid input)", i, st.Coll)
+				break
+			}
+			col, err := k.coll(st.Handle, st.Coll)
+			if err != nil {
+				return c, err
+			}
+			stmt, qT, args := queryTemplate(st.Q, st.Arg)
+			opT = C("SQuery", S(st.Coll), qT)
+			it, e := col.Query(sgbucket.SQLiteLanguage, stmt, args, sgbucket.RequestPlus, false)
+			if e != nil {
+				respT = rErr(e)
+				k.notes = append(k.notes, "query error: "+e.Error())
+			} else {
+				var rows []any
+				for {
+					r := it.NextBytes()
+					if r == nil {
+						break
+					}
+					rows = append(rows, S(string(r)))
+				}
+				if e := it.Close(); e != nil {
+					respT = rErr(e)
+					k.notes = append(k.notes, "query close error: "+e.Error())
+				} else {
+					respT = C("RRows", L(rows...))
+				}
+			}
+			k.cells["query|"+st.Q] = true
 		case "expire":
 			opT = C("SExpire")
 			atomic.StoreInt32(&k.manualExpiry, 1)
